@@ -37,9 +37,17 @@ type sm struct {
 	mu        sync.Mutex
 	ops       [][]byte
 	threshold int
+	// Every few calls the state machine is slow (fake time passes inside the call, outside
+	// its own lock): the library calls it with the node lock released, and whatever else
+	// the node does meanwhile (heartbeat replies, role changes) overlaps the call.
+	calls atomic.Int64
+	slow  time.Duration
 }
 
 func (s *sm) Apply(op *raft.Operation) interface{} {
+	if n := s.calls.Add(1); s.slow > 0 && n%3 == 0 {
+		time.Sleep(s.slow * time.Duration(1+n%4))
+	}
 	s.mu.Lock()
 	defer s.mu.Unlock()
 	if op.OperationType == raft.Replicated {
@@ -289,7 +297,7 @@ func runSeed(t *testing.T, seed int64, base string, st *seedStats) {
 		}
 		tr := &memTransport{net: nw, addr: addr, codec: codec}
 		nw.nodes[addr] = tr
-		r, err := raft.NewRaft(id, addr, &sm{threshold: threshold}, dir,
+		r, err := raft.NewRaft(id, addr, &sm{threshold: threshold, slow: heartbeat / 2}, dir,
 			raft.WithTransport(tr), raft.WithElectionTimeout(election), raft.WithHeartbeatInterval(heartbeat),
 			raft.WithLeaseDuration(election/3), raft.WithLogLevel(logging.Error))
 		if err != nil {
